@@ -32,6 +32,11 @@ struct PoolOptions {
   std::string log_dir;       // per-worker stderr files
   bool hashlog = false;      // open runhash.<w>.bin for PoolLogRunHash
   uint64_t max_deaths = 400; // stop handing out runs after this many deaths
+  uint64_t head = 4;         // leading indices always visited first, in order
+                             // (canaries, fault-free and exhaustive runs)
+  bool permute = false;      // visit [begin,end) in a strided permutation, so
+                             // that a batch cut short by its time budget has
+                             // sampled the whole index space evenly
 };
 
 struct PoolCallbacks {
